@@ -24,11 +24,16 @@ pub struct Case {
     /// auxiliaries, shared PV, biomass): the absolute thresholds of the DHW indicator are in reach
     #[serde(default)]
     pub dhw: Option<crate::dhw::DhwCase>,
+    /// 0 = as generated; k > 0: every non-zero magnitude v of the base building becomes 0.01 + v / 10^(k+2)
+    /// (a building of a few hundredths of a kWh per value, differences down to 1e-7 kWh)
+    #[serde(default)]
+    pub tiny: u8,
 }
 
 pub fn base_of(c: &Case) -> BFCase {
     match &c.dhw {
         Some(d) => BFCase { b: d.building(), f: d.factors(), k: d.k, area: c.base.area, lm: d.lm },
+        None if c.tiny > 0 => BFCase { b: tiny(&c.base.b, 10f32.powi(c.tiny as i32 + 2)), ..c.base.clone() },
         None => c.base.clone(),
     }
 }
@@ -77,7 +82,7 @@ impl Prop for C11 {
     type Case = Case;
     const ID: &'static str = "C11";
     fn rule() -> String {
-        "cases = building() with DEMANDA lines (values 0 or in [0.01, 1e4]) x factor_case() x k_exp x area x load matching x scale c in {2^k, k=-6..20} U {3.7, 10, 1e3, 1e6, 0.1} such that every non-zero scaled value stays in [0.01, 1e9]; \
+        "cases = building() with DEMANDA lines (values 0 or in [0.01, 1e4]) (30 % of cases: every magnitude v mapped to 0.01 + v/10^k, k=3..6, a building of hundredths of a kWh where absolute thresholds bite; 30 %: the DHW grammar) x factor_case() x k_exp x area x load matching x scale c in {2^k, k=-6..20} U {3.7, 10, 1e3, 1e6, 0.1} such that every non-zero scaled value stays in [0.01, 1e9]; \
          oracle = energies / weighted energies / per-step vectors of the scaled building equal c x base, RER*, f_match and the DHW renewable fraction (or its error) unchanged; area x c divides the per-m2 block by c and changes nothing else; \
          non-trivial = the building exports, has two sources on a carrier or a DHW demand, and c != 1"
             .into()
@@ -90,14 +95,14 @@ impl Prop for C11 {
         ]
     }
     fn cases(tier: Tier) -> u32 {
-        tier.pick(3_000, 100_000)
+        tier.pick(6_000, 120_000)
     }
     fn strategy(tier: Tier) -> BoxedStrategy<Case> {
         let mut p = params(tier);
         p.with_needs = true;
         p.huge_kwh = 0;
-        (bf_case(p, 40), 0usize..candidates().len(), proptest::option::weighted(0.3, crate::dhw::dhw_case(12)))
-            .prop_map(|(base, ci, dhw)| Case { base, ci, dhw })
+        (bf_case(p, 40), 0usize..candidates().len(), proptest::option::weighted(0.3, crate::dhw::dhw_case(12)), prop_oneof![7 => Just(0u8), 3 => 1u8..=4])
+            .prop_map(|(base, ci, dhw, tiny)| Case { base, ci, dhw, tiny })
             .boxed()
     }
     fn describe(c: &Case) -> Value {
@@ -114,6 +119,8 @@ impl Prop for C11 {
         let base = base_of(c);
         if c.dhw.is_some() {
             ctx.label("dhw_grammar");
+        } else if c.tiny > 0 {
+            ctx.label("tiny_building");
         }
         let b0 = &base.b;
         let b1 = scale(b0, cf);
